@@ -82,7 +82,7 @@ def run(ctx):
             L.append('  it("IToA", -(i128)%dLL, detail::IToA<-%dLL>::value);' % (n, n))
     for n in us:
         L.append('  it("UIToA", (i128)%dULL, detail::UIToA<%dULL>::value);' % (n, n))
-    for rep, vals in (("int8_t", [65, -5, 127, -128, 0]), ("uint8_t", [65, 200, 255]), ("int16_t", [-32768, 12345]), ("int", [2147483647, -7]), ("int64_t", [-9223372036854775807, 42]), ("uint64_t", [18446744073709551615])):
+    for rep, vals in (("int8_t", [65, -5, 127, -128, 0]), ("uint8_t", [65, 200, 255]), ("char", [65, 48, 10, 0, 127]), ("signed char", [66, -3]), ("unsigned char", [67, 250]), ("int16_t", [-32768, 12345]), ("int", [2147483647, -7]), ("int64_t", [-9223372036854775807, 42]), ("uint64_t", [18446744073709551615])):
         for v in vals:
             lit = "%dULL" % v if rep == "uint64_t" else "%dLL" % v
             L.append('  st("%s", (i128)%s, meters((%s)%s)); st("%s", (i128)%s, make_quantity<Trinches>((%s)%s)); st("%s", (i128)%s, (inches * mag<3>() / mag<7>())((%s)%s));' % (rep, lit, rep, lit, rep, lit, rep, lit, rep, lit, rep, lit))
